@@ -85,7 +85,8 @@ pub fn iso_case(args: &Args, idx: u64) -> CaseOut {
     let disc = *Rng::derive(args.seed, "c08disc", idx).pick(&[Disc::Full, Disc::Full, Disc::Forced, Disc::OnlyNonDiscoverable]);
     let rig = Rig::ok(disc);
     out.counters.push((format!("histories_over_store_{disc:?}"), 1));
-    let cfg = AuthCfg { counters: h.counters_cfg, hmac: HmacCfg::WithoutUv, ..Default::default() };
+    // (evaluation of PRF at creation is switched on for half of the histories)
+    let cfg = AuthCfg { counters: h.counters_cfg, hmac: HmacCfg::WithoutUv, hmac_mc: Rng::derive(args.seed, "c08mc", idx).bool(), ..Default::default() };
     let mut auth = rig.auth(cfg);
     let rp = "example.com";
     let mut ids: Vec<Vec<u8>> = Vec::new();
@@ -105,7 +106,13 @@ pub fn iso_case(args: &Args, idx: u64) -> CaseOut {
     if h.register_first {
         // a fresh registration: reports zero, stores Some(0) iff configured
         // discoverable or not: the initial counter follows the configuration alone
-        let r = block_on(auth.make_credential(mc_request(rp, b"fresh", &[1u8; 32], vec![pk_param(coset::iana::Algorithm::ES256)], None, None, rng.bool(), true, true)));
+        // with or without a PRF request (evaluated at creation when the configuration says so)
+        let reg_ext = rng.bool().then(|| passkey_types::ctap2::make_credential::ExtensionInputs {
+            hmac_secret: None,
+            hmac_secret_mc: None,
+            prf: Some(passkey_types::ctap2::extensions::AuthenticatorPrfInputs { eval: rng.bool().then(|| passkey_types::ctap2::extensions::AuthenticatorPrfValues { first: [9; 32], second: None }), eval_by_credential: None }),
+        });
+        let r = block_on(auth.make_credential(mc_request(rp, b"fresh", &[1u8; 32], vec![pk_param(coset::iana::Algorithm::ES256)], None, reg_ext, rng.bool(), true, true)));
         if let Ok(resp) = r {
             let ad = authdata::decode(&resp.auth_data.to_vec()).ok();
             let new_id = ad.as_ref().and_then(|a| a.attested.as_ref().map(|t| t.cred_id.clone())).unwrap_or_default();
@@ -243,6 +250,44 @@ pub fn iso_case(args: &Args, idx: u64) -> CaseOut {
             }
         }
         out.counters.push(("imported_counterless_credentials_checked".into(), 1));
+    }
+    // the library's shared-store wrappers around its in-memory store, with counters at and just below the
+    // 32-bit maximum: no crash, never a smaller value, the reported value is the stored one
+    {
+        use passkey_authenticator::MemoryStore;
+        let mut r3 = Rng::derive(args.seed, "c08wrap", idx);
+        let start = *r3.pick(&[u32::MAX, u32::MAX - 1, u32::MAX - 2, 7]);
+        let id = vec![0x55u8; 16];
+        let (pk, _, _) = seeded_passkey(&mut r3, rp, &id, Some(b"u"), Some(start), None);
+        let mut m = MemoryStore::new();
+        m.insert(id.clone(), pk);
+        rig.uv.set_outcome(crate::collab::UvOutcome::Check { presence: true, verification: true });
+        macro_rules! go {
+            ($shared:expr, $read:ident) => {{
+                let shared = $shared;
+                let mut a3 = crate::util::mk_auth(shared.clone(), rig.uv.clone(), AuthCfg { counters: true, ..Default::default() });
+                let mut prev = start;
+                for n in 0..3 {
+                    let r = block_on(a3.get_assertion(ga_request(rp, &[2u8; 32], Some(vec![descriptor(&id)]), None, true, true)));
+                    let stored = shared.$read().ok().and_then(|g| g.get(&id).and_then(|p| p.counter));
+                    if let Ok(resp) = &r {
+                        let reported = authdata::decode(&resp.auth_data.to_vec()).map(|a| a.counter).unwrap_or(u32::MAX / 3);
+                        if reported < prev || (prev < u32::MAX && reported != prev + 1) {
+                            viol(&mut out, "assertion does not report the previous counter plus one", format!("shared in-memory store: previous {prev}, reported {reported}"), 3000 + n);
+                        }
+                        if stored != Some(reported) && prev < u32::MAX {
+                            viol(&mut out, "reported counter differs from the value then held in the store", format!("shared in-memory store: reported {reported}, stored {stored:?}"), 3000 + n);
+                        }
+                    }
+                    if stored.map_or(true, |s| s < prev) {
+                        viol(&mut out, "stored counter became smaller at the 32-bit maximum", format!("shared in-memory store: previous {prev}, stored {stored:?}"), 3000 + n);
+                    }
+                    prev = stored.unwrap_or(prev);
+                }
+            }};
+        }
+        if r3.bool() { go!(std::sync::Arc::new(tokio::sync::Mutex::new(m)), try_lock) } else { go!(std::sync::Arc::new(tokio::sync::RwLock::new(m)), try_read) }
+        out.counters.push(("shared_store_boundary_histories".into(), 1));
     }
     // the same rule seen by a relying party through the client: every successful Client::authenticate
     // reports the value the store held before it plus one, which is what the store holds afterwards -
